@@ -8,7 +8,7 @@ CONSTANTS
   MaxNpts = 6
   Acts = {"CvKnotInsert"}
   PtKinds = {"gen"}
-  WtKinds = {"none", "gen"}
+  WtKinds = {"none", "gen", "const"}
   ExtraNodes <- Extra0
   NodeSize = 3
   Scenario = "single"
